@@ -39,7 +39,8 @@ class C14(Prop):
             elif k < 0.65:
                 e = rng.choice([[rng.gauss(0, 1) for _ in range(3)], [rng.uniform(-1, 1) for _ in range(3)], [1.0, 0.0, -1.0], [1.0, 1.0, 1.0],
                                 [-1.0, -1.0, -1.0], [2.0, -1.0, -1.0], [1.0, 1.0, -2.0], [1.0, 1.0, 0.2], [0.5, -0.1, -0.1], [-1.0, 2.0, -1.0]])
-                yield {'kind': 'spectrum', 'e': list(e), 'scale': 10 ** rng.uniform(-5, 5), 'perm': rng.choice(list(itertools.permutations(range(3))))}
+                yield {'kind': 'spectrum', 'e': list(e), 'scale': 10 ** rng.choice([rng.uniform(-5, 5), rng.uniform(-12, -7), rng.uniform(7, 12)]),
+                       'perm': rng.choice(list(itertools.permutations(range(3))))}
             elif k < 0.8:
                 a = rng.choice([rng.uniform(0, PI / 2), 0.0, PI / 2, PI / 2 - 1e-6, 1e-6])
                 nu = rng.choice([rng.uniform(-0.99, 0.49), 0.25, 0.0, -0.5, 0.49])
@@ -76,8 +77,19 @@ class C14(Prop):
                 t, kk = cv.E_tk(v.copy())
                 u, w = cv.E_uv(v.copy())
                 return [float(np.asarray(x).flatten()[0]) for x in (g, d, t, kk, u, w)]
-            return {'base': all_of(e), 'scaled': all_of(e * case['scale']), 'perm': all_of(e[list(case['perm'])]),
-                    'sorted': all_of(np.sort(e)[::-1])}
+            res = {'base': all_of(e), 'scaled': all_of(e * case['scale']), 'perm': all_of(e[list(case['perm'])]),
+                   'sorted': all_of(np.sort(e)[::-1])}
+            # the same coordinates from one call on several spectra at once (the way the plotting code calls them)
+            cols = [np.sort(e)[::-1], np.sort(-e)[::-1], np.sort(e * case['scale'])[::-1], np.sort(e[::-1] - e.mean() * 1.5)[::-1]]
+            arr = np.array(cols, dtype=float).T
+            g, d = cv.E_GD(arr.copy())
+            t, kk = cv.E_tk(arr.copy())
+            u, w = cv.E_uv(arr.copy())
+            tu, tw = cv.tk_uv(np.asarray(t, dtype=float).flatten().copy(), np.asarray(kk, dtype=float).flatten().copy())
+            res['batched'] = [[float(np.asarray(x).flatten()[j]) for x in (g, d, t, kk, u, w)] for j in range(len(cols))]
+            res['batched_tkuv'] = [[float(np.asarray(x).flatten()[j]) for x in (tu, tw)] for j in range(len(cols))]
+            res['singles'] = [all_of(c) for c in cols]
+            return res
         if k == 'cdc':
             g, d = cv.basic_cdc_GD(np.array([case['a']]), case['nu'])
             g, d = float(np.asarray(g).flatten()[0]), float(np.asarray(d).flatten()[0])
@@ -192,6 +204,16 @@ class C14(Prop):
                                     '%s changes from %r to %r under %s of the eigenvalues %r' %
                                     (nme, x, y, 'positive scaling' if which == 'scaled' else 'reordering', case['e']), None))
                         break
+            for j, (bt, sg, tu) in enumerate(zip(impl['batched'], impl['singles'], impl['batched_tkuv'])):
+                if any(math.isnan(x) for x in sg):
+                    continue
+                if not all(close(x, y, atol=1e-9) for x, y in zip(bt, sg)):
+                    out.append(('batched', 'coordinates (gamma, delta, tau, k, u, v) of spectrum %d computed in one call on several spectra are %r, '
+                                'computed alone %r' % (j, bt, sg), None))
+                    break
+                if not (close(tu[0], sg[4], atol=1e-9) and close(tu[1], sg[5], atol=1e-9)):
+                    out.append(('batched', 'tk_uv on arrays gives (u, v) = %r for spectrum %d, the single call %r' % (tu, j, sg[4:6]), None))
+                    break
             if abs(b[0]) > PI / 6 + 1e-9 or abs(b[1]) > PI / 2 + 1e-9:
                 out.append(('lune-range', 'lune coordinates out of range: %r' % (b[:2],), None))
             s = impl['sorted']
